@@ -22,6 +22,8 @@ deriving DecidableEq, Repr
 
 /-- `conn.Write(p)`: returns the new connection, the count accepted and the outcome -/
 def WConn.write (c : WConn) (p : Bytes) : WConn × Nat × WOut :=
+  -- writing nothing succeeds on any open connection and tells nothing about it
+  if p.isEmpty then ({ c with writes := c.writes + 1 }, 0, .ok) else
   match c.policy with
   | [] => ({ c with log := c.log ++ p, writes := c.writes + 1 }, p.length, .ok)
   | e :: rest =>
